@@ -169,3 +169,13 @@ Theorem C05_option_parse_compose : forall code v pre post,
   rdlen (option_schema code) false v = Ok (Some (len (compose (option_schema code) v))).
 Proof. exact option_parse_compose. Qed.
 Print Assumptions C05_option_parse_compose.
+
+(* IPSECKEY, every gateway type: compose then parse (the row is picked by the
+   gateway type octet), exact length *)
+Theorem C05_ipseckey_parse_compose : forall g v pre post,
+  g <= 3 -> wf_value (ipseckey_schema g) v = true ->
+  ipseckey_parse (pre ++ compose (ipseckey_schema g) v ++ post) (len pre)
+    (len pre + len (compose (ipseckey_schema g) v)) = Ok v /\
+  rdlen (ipseckey_schema g) false v = Ok (Some (len (compose (ipseckey_schema g) v))).
+Proof. exact ipseckey_parse_compose. Qed.
+Print Assumptions C05_ipseckey_parse_compose.
